@@ -23,7 +23,7 @@ func init() {
 		title: "Type 1 reader recovers exactly the font a conforming file describes",
 		explanation: "Decides the specification-table and shape clauses of C06: the 25 charstring opcode constants equal the Type 1 book's numbers; the command switch has a case for every one of them and its default is an error; each case demands the book's operand count before it reads operands and reads only operands below that count; every stack-clearing command clears the stack; the argument mapping of the eight path commands to relative line/move/curve equals the book's (which operand is dx, dy, which are zero); " +
 			"flex: othersubr 1 resets the flex buffer, 2 records the current point, 0 requires seven points and emits two curves from points 1..6 in order; moves inside a flex sequence only record coordinates; callothersubr pops its arguments in reverse and pop returns them; callsubr is depth-limited and index-checked; div operand order (C20); " +
-			"number ranges (C20); charstring decryption uses key 4330, the specified data flow, skips lenIV bytes, default lenIV 4; defaults BlueScale .039625, BlueShift 7, BlueFuzz 1, FontMatrix [.001 0 0 .001 0 0]; seac components are looked up in StandardEncoding with both codes range-checked, the composite copies the base's commands, the accent's commands are translated by (adx, ady) for every command type; codes of absent glyphs map to .notdef; container detection tests the first byte against 0x80. " +
+			"number ranges (C20); charstring decryption uses key 4330, the specified data flow (outputs compared as normal forms over Z/2^16), skips lenIV bytes, default lenIV 4, and at every call of the decryption — glyph procedures and subroutines — the lenIV entry of the font reaches the lead-byte argument (value sources); defaults BlueScale .039625, BlueShift 7, BlueFuzz 1, FontMatrix [.001 0 0 .001 0 0]; seac components are looked up in StandardEncoding with both codes range-checked, the composite copies the base's commands, the accent's commands are translated by (adx, ady) for every command type; codes of absent glyphs map to .notdef; container detection tests the first byte against 0x80. " +
 			"It does NOT decide that outlines, widths, hints and dictionary values equal the described ones as values, nor the side-bearing arithmetic where readings of the book differ (DESIGN.md §10).",
 		trusted:     []string{"Adobe Type 1 Font Format tables carried in the checker", "byte-domain evaluation / symbolic terms"},
 		assumptions: nil,
@@ -59,12 +59,8 @@ func runC06(c *Ctx) {
 	if os.Getenv("PSA_DEBUG_T1") != "" {
 		c.t1Debug()
 	}
-	info := c.info("type1")
 	// charstrings and subroutines arrive as `n RD ~n~binary~bytes~`: RD is readstring
 	c.scannerOperators(c.interp(), c.registry(), "T1-BINARY", "readstring")
-	decFD := c.funcDecl("type1", "decodeInfo", "decodeCharString")
-	fname := "type1.(*decodeInfo).decodeCharString"
-
 	// ---- opcode constants
 	var names []string
 	for n := range t1Spec {
@@ -72,7 +68,7 @@ func runC06(c *Ctx) {
 	}
 	sort.Strings(names)
 	for _, n := range names {
-		obj, _ := c.pkg("type1").Types.Scope().Lookup(n).(*types.Const)
+		obj, _ := c.pkg("type1").Types.Scope().Lookup(c.curVal("type1", n)).(*types.Const)
 		if obj == nil {
 			c.fail("T1-OPCODES", n, "constant defined", token.NoPos, "opcode constant "+n+" is not defined")
 			continue
@@ -83,246 +79,17 @@ func runC06(c *Ctx) {
 	// the command table: arity, clearing, path arguments, unknown commands, two-byte commands
 	c.t1CommandTable()
 
-	// ---- the command switch
-	var sw *ast.SwitchStmt
-	ast.Inspect(decFD.Body, func(n ast.Node) bool {
-		if s, ok := n.(*ast.SwitchStmt); ok && s.Tag != nil && sw == nil {
-			if t := info.TypeOf(s.Tag); t != nil && strings.HasSuffix(t.String(), "type1.t1op") {
-				sw = s
-			}
-		}
-		return true
-	})
-	if sw == nil {
-		c.fail("T1-DISPATCH", fname, "command switch", decFD.Pos(), "switch over the charstring command not found")
-		return
-	}
-	clauses := map[string]*ast.CaseClause{}
-	for _, cc := range sw.Body.List {
-		cl := cc.(*ast.CaseClause)
-		for _, e := range cl.List {
-			if id, ok := e.(*ast.Ident); ok {
-				clauses[id.Name] = cl
-			}
-		}
-	}
-	// helpers: closures rLineTo / rMoveTo / rCurveTo identified by what they append
-	helperKind := map[types.Object]string{}
-	ast.Inspect(decFD.Body, func(n ast.Node) bool {
-		as, ok := n.(*ast.AssignStmt)
-		if !ok || as.Tok != token.DEFINE || len(as.Lhs) != 1 || len(as.Rhs) != 1 {
-			return true
-		}
-		fl, ok := as.Rhs[0].(*ast.FuncLit)
-		if !ok {
-			return true
-		}
-		id := as.Lhs[0].(*ast.Ident)
-		kind := ""
-		ast.Inspect(fl.Body, func(m ast.Node) bool {
-			if kv, ok := m.(*ast.KeyValueExpr); ok {
-				if k, ok := kv.Key.(*ast.Ident); ok && k.Name == "Op" {
-					if v, ok := kv.Value.(*ast.Ident); ok {
-						switch v.Name {
-						case "OpMoveTo":
-							kind = "move"
-						case "OpLineTo":
-							kind = "line"
-						case "OpCurveTo":
-							kind = "curve"
-						case "OpClosePath":
-							if kind == "" {
-								kind = "close"
-							}
-						}
-					}
-				}
-			}
-			return true
-		})
-		nparams := 0
-		for _, f := range fl.Type.Params.List {
-			nparams += len(f.Names)
-		}
-		if nparams == 0 && kind == "" {
-			// clearStack: assigns stack = stack[:0]
-			ast.Inspect(fl.Body, func(m ast.Node) bool {
-				if sl, ok := m.(*ast.SliceExpr); ok && sl.High != nil {
-					if k, ok := constIntOf(info, sl.High); ok && k == 0 {
-						kind = "clear"
-					}
-				}
-				return true
-			})
-		}
-		if kind != "" {
-			helperKind[info.Defs[id]] = kind
-		}
-		return true
-	})
-
+	// (every command has a handler, unknown commands are errors, operand counts, stack clearing:
+	// all decided by the command table above; no rule locates the command switch in the syntax)
 	c.t1FlexRules()
-	c.subrRules(info, clauses)
+	c.subrRules(nil, nil)
 	c.charstringDecryption()
 	c.readDefaults()
+	c.lenIVFlowB()
 	c.seacRules()
 	c.glyphOpSwitches()
 	c.glyphOpLiterals()
 	c.containerDetection()
-}
-
-func (c *Ctx) flexRules(info *types.Info, decFD *ast.FuncDecl, clauses map[string]*ast.CaseClause, helperKind map[types.Object]string) {
-	fname := "type1.(*decodeInfo).decodeCharString"
-	cl := clauses["t1callothersubr"]
-	if cl == nil {
-		return
-	}
-	var sw *ast.SwitchStmt
-	ast.Inspect(cl, func(n ast.Node) bool {
-		if s, ok := n.(*ast.SwitchStmt); ok && s.Tag != nil && sw == nil {
-			sw = s
-		}
-		return true
-	})
-	if sw == nil {
-		c.fail("T1-FLEX", fname, "othersubr switch", cl.Pos(), "no switch over the othersubr number")
-		return
-	}
-	sub := map[int64]*ast.CaseClause{}
-	for _, cc := range sw.Body.List {
-		k := cc.(*ast.CaseClause)
-		for _, e := range k.List {
-			if v, ok := constIntOf(info, e); ok {
-				sub[v] = k
-			}
-		}
-	}
-	text := func(k *ast.CaseClause) string {
-		var sb strings.Builder
-		for _, st := range k.Body {
-			sb.WriteString(nodeString(c, st))
-			sb.WriteString("\n")
-		}
-		return sb.String()
-	}
-	// 1: flex start resets the buffer
-	okStart := false
-	if k := sub[1]; k != nil {
-		ast.Inspect(k, func(n ast.Node) bool {
-			if as, ok := n.(*ast.AssignStmt); ok && len(as.Lhs) == 1 && len(as.Rhs) == 1 {
-				if id, ok := as.Lhs[0].(*ast.Ident); ok && id.Name == "flexData" {
-					switch r := as.Rhs[0].(type) {
-					case *ast.SliceExpr:
-						if hv, ok := constIntOf(info, r.High); ok && hv == 0 {
-							okStart = true
-						}
-					case *ast.Ident:
-						if r.Name == "nil" {
-							okStart = true
-						}
-					}
-				}
-			}
-			return true
-		})
-	}
-	c.check(okStart, "T1-FLEX", fname, "othersubr 1 (flex start) empties the flex buffer", cl.Pos(), "flexData = flexData[:0]", "flex start does not reset the buffer of reference points: a second flex in the same charstring sees the points of the first and its curves are dropped")
-	// 2: records the current point
-	okPoint := false
-	if k := sub[2]; k != nil {
-		t := text(k)
-		okPoint = strings.Contains(t, "append(flexData, posX, posY)")
-	}
-	c.check(okPoint, "T1-FLEX", fname, "othersubr 2 records the current point", cl.Pos(), "flexData = append(flexData, posX, posY)", "flex coordinate othersubr does not record the current point (x then y)")
-	// 0: seven points required, curves from points 1..6
-	okEnd := false
-	whyEnd := "flex end not found"
-	if k := sub[0]; k != nil {
-		whyEnd = ""
-		var idx []int64
-		needs14 := false
-		ast.Inspect(k, func(n ast.Node) bool {
-			switch n := n.(type) {
-			case *ast.BinaryExpr:
-				if n.Op == token.EQL && types.ExprString(n.X) == "len(flexData)" {
-					if v, ok := constIntOf(info, n.Y); ok && v == 14 {
-						needs14 = true
-					}
-				}
-			case *ast.IndexExpr:
-				if id, ok := n.X.(*ast.Ident); ok && id.Name == "flexData" {
-					if v, ok := constIntOf(info, n.Index); ok {
-						idx = append(idx, v)
-					}
-				}
-			}
-			return true
-		})
-		want := []int64{2, 3, 4, 5, 6, 7, 8, 9, 10, 11, 12, 13}
-		if !needs14 {
-			whyEnd = "flex end does not require exactly seven recorded points"
-		} else if fmt.Sprint(idx) != fmt.Sprint(want) {
-			whyEnd = fmt.Sprintf("the two curves use buffer entries %v, expected %v (points 1..6 in order)", idx, want)
-		}
-		okEnd = whyEnd == ""
-	}
-	c.check(okEnd, "T1-FLEX", fname, "othersubr 0 (flex end) emits two curves from reference points 1..6", cl.Pos(), "len(flexData) == 14; entries 2..13 in order", whyEnd)
-	// moves inside a flex sequence only record coordinates: the move helper returns early under the flex flag
-	okMove := false
-	ast.Inspect(decFD.Body, func(n ast.Node) bool {
-		as, ok := n.(*ast.AssignStmt)
-		if !ok || as.Tok != token.DEFINE || len(as.Rhs) != 1 {
-			return true
-		}
-		fl, ok := as.Rhs[0].(*ast.FuncLit)
-		if !ok || helperKind[info.Defs[as.Lhs[0].(*ast.Ident)]] != "move" {
-			return true
-		}
-		if len(fl.Body.List) > 0 {
-			if ifs, ok := fl.Body.List[0].(*ast.IfStmt); ok {
-				if id, ok := ifs.Cond.(*ast.Ident); ok {
-					// flag set by othersubr 1 and cleared by othersubr 0
-					set1, clr0 := false, false
-					for v, want := range map[int64]string{1: "true", 0: "false"} {
-						if k := sub[v]; k != nil {
-							ast.Inspect(k, func(m ast.Node) bool {
-								if a2, ok := m.(*ast.AssignStmt); ok && len(a2.Lhs) == 1 {
-									if l, ok := a2.Lhs[0].(*ast.Ident); ok && l.Name == id.Name {
-										if r, ok := a2.Rhs[0].(*ast.Ident); ok && r.Name == want {
-											if v == 1 {
-												set1 = true
-											} else {
-												clr0 = true
-											}
-										}
-									}
-								}
-								return true
-							})
-						}
-					}
-					endsReturn := false
-					if len(ifs.Body.List) > 0 {
-						_, endsReturn = ifs.Body.List[len(ifs.Body.List)-1].(*ast.ReturnStmt)
-					}
-					noAppend := !strings.Contains(nodeString(c, ifs.Body), "append(")
-					if set1 && clr0 && endsReturn && noAppend {
-						okMove = true
-					}
-				}
-			}
-		}
-		return true
-	})
-	c.check(okMove, "T1-FLEX", fname, "moves inside a flex sequence only record coordinates", decFD.Pos(), "move helper returns early while the flex flag (set by othersubr 1, cleared by 0) is on", "rmoveto inside a flex sequence emits path commands: after a line this leaves a spurious closepath in the outline")
-	// argument transfer: callothersubr pops argN values in reverse onto the PostScript stack, pop returns the top
-	okXfer := strings.Contains(text(cl), "postscriptStack = append(postscriptStack, val)") && strings.Contains(text(cl), "val := stack[len(stack)-1]")
-	c.check(okXfer, "T1-FLEX", fname, "callothersubr moves its arguments, last first, to the PostScript stack", cl.Pos(), "pop from the operand stack, push on the PostScript stack", "callothersubr does not transfer its arguments from the top of the operand stack")
-	if p := clauses["t1pop"]; p != nil {
-		t := text(p)
-		okPop := strings.Contains(t, "len(postscriptStack) < 1") && strings.Contains(t, "postscriptStack[len(postscriptStack)-1]") && strings.Contains(t, "stack = append(stack, val)")
-		c.check(okPop, "T1-FLEX", fname, "pop moves the top of the PostScript stack to the operand stack (guarded)", p.Pos(), "guard, take top, push", "pop does not (guardedly) move the top of the PostScript stack onto the operand stack")
-	}
 }
 
 func nodeString(c *Ctx, n ast.Node) string {
@@ -333,71 +100,71 @@ func nodeString(c *Ctx, n ast.Node) string {
 	return strings.Join(strings.Fields(buf.String()), " ")
 }
 
-func (c *Ctx) subrRules(info *types.Info, clauses map[string]*ast.CaseClause) {
+// subrRules: callsubr, decided on the decoder's command loop (one pass evaluated per cell,
+// rules_c06b.go).  The font has five subroutines of distinct content; the command is evaluated
+// with every kind of index (negative, in range, one past the end, far beyond) and with call
+// stacks of different depth, both with further commands after the call and as the last byte of
+// its charstring (a tail call).  The arguments are kept for the callers' sake.
+func (c *Ctx) subrRules(_ *types.Info, _ map[string]*ast.CaseClause) {
+	m := c.t1Machine()
 	fname := "type1.(*decodeInfo).decodeCharString"
-	cl := clauses["t1callsubr"]
-	if cl == nil {
-		return
+	pos := m.fn.Pos()
+	op := byte(c.constInt("type1", "t1callsubr"))
+	end := byte(c.constInt("type1", "t1endchar"))
+	ret := byte(c.constInt("type1", "t1return"))
+	m.subrs = [][]byte{{ret}, {end, ret}, {end, end, ret}, {ret, ret}, {end, ret, ret}}
+	defer func() { m.subrs, m.framesSet, m.nframes = nil, false, 0 }()
+	run := func(code []byte, idx float64, frames int) t1Outcome {
+		m.framesSet, m.nframes = true, frames
+		return m.runX(code, []sv{symV("s0"), fl(idx)}, nil, nil, nil)
 	}
-	// index check and depth limit dominate the jump into the subroutine
-	var idxIf, depthIf *ast.IfStmt
-	var pushPos, jumpPos token.Pos
-	ast.Inspect(cl, func(n ast.Node) bool {
-		switch n := n.(type) {
-		case *ast.IfStmt:
-			s := types.ExprString(n.Cond)
-			if strings.Contains(s, "len(info.subrs)") && strings.Contains(s, "< 0") {
-				idxIf = n
-			}
-			if strings.Contains(s, "len(cmdStack) >") {
-				depthIf = n
-			}
-		case *ast.AssignStmt:
-			if len(n.Lhs) == 1 {
-				if id, ok := n.Lhs[0].(*ast.Ident); ok {
-					if id.Name == "cmdStack" {
-						pushPos = n.Pos()
-					}
-					if id.Name == "code" && strings.Contains(types.ExprString(n.Rhs[0]), "subrs[") {
-						jumpPos = n.Pos()
-					}
-				}
+	tails := [][]byte{{op, end}, {op}}
+	// ---- the index
+	var bad []string
+	n := float64(len(m.subrs))
+	for _, code := range tails {
+		for _, idx := range []float64{-1, -1000, n, n + 1, 1 << 40} {
+			o := run(code, idx, 1)
+			if !o.err || o.panics {
+				bad = append(bad, fmt.Sprintf("index %g of %g subroutines is not refused (%s)", idx, n, o.why))
 			}
 		}
-		return true
-	})
-	okIdx := idxIf != nil && jumpPos.IsValid() && idxIf.Pos() < jumpPos
-	c.check(okIdx, "T1-SUBR", fname, "subroutine index range-checked before the jump", cl.Pos(), "idx < 0 || idx >= len(subrs) → error", "callsubr jumps to a subroutine without checking the index against the Subrs array")
-	okDepth := false
-	if depthIf != nil && pushPos.IsValid() && jumpPos.IsValid() {
-		// the push of the return frame is unconditional in the clause (a statement of the clause body itself)
-		uncond := false
-		for _, st := range cl.Body {
-			if st.Pos() == pushPos {
-				uncond = true
-			}
-		}
-		limUncond := false
-		for _, st := range cl.Body {
-			if st == ast.Stmt(depthIf) {
-				limUncond = true
-			}
-		}
-		if be, ok := depthIf.Cond.(*ast.BinaryExpr); ok {
-			if k, ok := constIntOf(info, be.Y); ok && k <= 100 && uncond && limUncond && depthIf.Pos() < jumpPos {
-				okDepth = true
+		for _, idx := range []int{0, 1, 2, 4} {
+			o := run(code, float64(idx), 1)
+			if !o.back || o.code.k != svString || o.code.s != string(m.subrs[idx]) {
+				bad = append(bad, fmt.Sprintf("index %d does not continue with subroutine %d: error %v, next code %s %s", idx, idx, o.err, o.code, o.why))
+			} else if o.stack != "[s0]" {
+				bad = append(bad, fmt.Sprintf("the call does not take exactly its index off the operand stack: [s0 %d] becomes %s", idx, o.stack))
 			}
 		}
 	}
-	c.check(okDepth, "T1-SUBR", fname, "every subroutine call pushes a return frame and is depth-limited", cl.Pos(), "cmdStack = append(cmdStack, code); len(cmdStack) > limit → error (both unconditional)", "a subroutine call can be made without pushing a return frame or without the depth limit: a subroutine that ends in a call of itself then loops forever")
+	c.check(len(bad) == 0, "T1-SUBR", fname, "subroutine index range-checked before the jump", pos, "indices -1, -1000, n, n+1, 2^40 refused; 0, 1, 2, 4 of 5 continue with that subroutine", "callsubr jumps to a subroutine without checking the index against the Subrs array: "+joinMax(bad, 2))
+	// ---- return frames and the depth limit
+	bad = nil
+	for _, code := range tails {
+		rest := string(code[1:])
+		for _, depth := range []int{0, 1} {
+			o := run(code, 0, depth)
+			ok := o.back && len(o.frames) == depth+1
+			if ok {
+				top := o.frames[len(o.frames)-1]
+				ok = top.k == svString && top.s == rest
+			}
+			if !ok {
+				bad = append(bad, fmt.Sprintf("a call with %d byte(s) of the caller left and %d frame(s) on the call stack leaves the call stack %v (expected: one more frame holding the rest of the caller) %s", len(rest), depth, o.frames, o.why))
+			}
+		}
+		if o := run(code, 0, 100); !o.err || o.panics {
+			bad = append(bad, fmt.Sprintf("a call with %d byte(s) of the caller left at depth 100 is not refused", len(rest)))
+		}
+	}
+	c.check(len(bad) == 0, "T1-SUBR", fname, "every subroutine call pushes a return frame and is depth-limited", pos, "calls in the middle and at the end of a charstring, at depths 0, 1 and 100", "a subroutine call can be made without pushing a return frame or without the depth limit: a subroutine that ends in a call of itself then loops forever: "+joinMax(bad, 2))
 }
 
 func (c *Ctx) charstringDecryption() {
 	fn := c.fn("type1", "deobfuscateCharstring")
 	fname := "type1.deobfuscateCharstring"
 	// evaluate the function on six symbolic cipher bytes for each number of lead bytes
-	c1 := c.constInt("type1", "eexecC1")
-	c2 := c.constInt("type1", "eexecC2")
 	run := func(ncipher int, n int64) (res sv, ev *ssaEval) {
 		ev = &ssaEval{c: c, bind: map[ssa.Value]sv{}, mem: map[string]sv{}}
 		var cipher []sv
@@ -410,47 +177,47 @@ func (c *Ctx) charstringDecryption() {
 		}
 		return res, ev
 	}
+	// reference: r0 = 4330; plain_j = c_j ^ byte(r_j >> 8); r_{j+1} = (c_j + r_j)*c1 + c2 in 16 bits.
+	// The outputs are compared as normal forms over Z/2^16 (ext_b.go); when the forms differ, three
+	// symbolic bytes are compared for all their values and a concrete sequence decides the chaining.
+	nring := &ringB{width: map[string]uint{}}
+	for i := 0; i < 6; i++ {
+		nring.width[fmt.Sprintf("c%d", i)] = 8
+	}
+	compare := func(cipher []sv, n int64) string {
+		ev := &ssaEval{c: c, bind: map[ssa.Value]sv{}, mem: map[string]sv{}}
+		ret := ev.runFunc(fn, []sv{ev.newList(cipher), intV(n)})
+		if len(ret) != 1 || ev.why != "" {
+			return fmt.Sprintf("lenIV %d: not evaluable (%s)", n, ev.why)
+		}
+		got, ok := ev.elems(ret[0])
+		if !ok {
+			return fmt.Sprintf("lenIV %d: the result is %s", n, ev.render(ret[0]))
+		}
+		want, _ := cipherRefB(cipher, intV(4330), true)
+		return nring.bytesAgreeB(got, want[n:], fmt.Sprintf("with lenIV %d on %d bytes", n, len(cipher)))
+	}
 	var bad []string
 	for _, n := range []int64{0, 1, 4, 6} {
-		res, ev := run(6, n)
-		got, ok := ev.elems(res)
-		if !ok || ev.why != "" {
-			bad = append(bad, fmt.Sprintf("lenIV %d: not evaluable (%s)", n, ev.why))
-			continue
+		if why := compare(symListB("c", 6), n); why != "" {
+			bad = append(bad, why)
 		}
-		// reference: r0 = 4330; plain_j = c_j ^ byte(r_j >> 8); r_{j+1} = (c_j + r_j)*c1 + c2 in 16 bits
-		r := intV(4330)
-		var want []string
-		for j := 0; j < 6; j++ {
-			cj := symV(fmt.Sprintf("c%d", j))
-			var hi sv
-			if r.k == svInt {
-				hi = intV(int64(uint8(uint16(r.i) >> 8)))
-			} else {
-				hi = term("u8", term(">>u16", r, intV(8)))
+	}
+	if len(bad) > 0 {
+		// the same decision without relying on the form of the terms
+		var bad2 []string
+		for _, n := range []int64{0, 1, 3} {
+			if why := compare(symListB("c", 3), n); why != "" {
+				bad2 = append(bad2, why)
 			}
-			if int64(j) >= n {
-				want = append(want, term("^u8", cj, hi).String())
-			}
-			r = term("+u16", term("*u16", term("+u16", cj, r), intV(c1)), intV(c2))
 		}
-		var gs []string
-		for _, g := range got {
-			gs = append(gs, g.String())
+		for _, n := range []int64{0, 1, 4, 6, 8} {
+			if why := compare(intListB(0x10, 0xbf, 0x31, 0x70, 0x4f, 0xab, 0x5b, 0x1f), n); why != "" {
+				bad2 = append(bad2, why)
+			}
 		}
-		if strings.Join(gs, " ") != strings.Join(want, " ") {
-			k := 0
-			for k < len(gs) && k < len(want) && gs[k] == want[k] {
-				k++
-			}
-			g, w := "nothing", "nothing"
-			if k < len(gs) {
-				g = gs[k]
-			}
-			if k < len(want) {
-				w = want[k]
-			}
-			bad = append(bad, fmt.Sprintf("with lenIV %d the decoder outputs %d bytes, expected %d; output byte %d is %s, expected %s", n, len(gs), len(want), k, g, w))
+		if len(bad2) == 0 {
+			bad = nil
 		}
 	}
 	c.check(len(bad) == 0, "CIPHER-SHAPE", fname, "plain = cipher ^ (r >> 8), r = (cipher + r)*c1 + c2 from key 4330, the first lenIV bytes decrypted but not output", fn.Pos(), "six symbolic cipher bytes × lenIV 0, 1, 4, 6", "charstring decryption: "+joinMax(bad, 2))
